@@ -58,4 +58,7 @@ def validateCatchAll : Bool := true
 /-- exception classes `dtype_to_tensor_type` turns into TypeError around onnx's table lookup (AST) -/
 def dtypeCatches : List String := ["KeyError", "ValueError"]
 
+/-- … and around `np.dtype(dtype_like)` itself (malformed specifications such as `(int, -1)`) (AST) -/
+def dtypeSpecCatches : List String := ["ValueError"]
+
 end Generated.AttrKinds
